@@ -682,8 +682,8 @@ func (r *udpRun) invariants() {
 			}
 		}
 		r.memSnap[tid] = cur
-		if t.memoryWaiters.Len() == 0 && sum+r.gapLeak[tid] != t.acquiredMemory {
-			r.stats["probe.shadow_memory_account_differs"]++
+		if t.memoryWaiters.Len() == 0 && sum != t.acquiredMemory {
+			r.stats["probe.shadow_memory_account_differs"]++ // ownerless bytes; judged at the end of the run
 		}
 		if r.sc.Mode != "norestart" {
 			continue
@@ -1044,7 +1044,7 @@ func (r *udpRun) settle() {
 		if leaked != 0 {
 			why := "cause unknown"
 			if leaked == r.gapLeak[tid] {
-				why = "exactly the bytes reserved-for-stream-gaps by connections that were reset (generation bump) before the gap was filled"
+				why = "exactly the bytes reserved for stream gaps by connections that were reset (generation bump) before the gap was filled — the defect repaired by the fix: commit listed in known_findings.json has returned"
 			}
 			r.fail("C36/memory-not-released", fmt.Sprintf("node %d: %d bytes of incoming message memory are accounted for but belong to no live connection after the network settled (%s):%s", tid, leaked, why, r.describe()))
 			return
